@@ -152,7 +152,7 @@ def extract_jobs(Job, cfg=CFG_NDEBUG, tier="quick"):
             J("extract_files_basename", "h_basename", ["extract_files_basename"], cover=True)]
 
 
-HXC_GROUP = ["hxc_le_word", "hxc_le_quad", "hxc_read_and_verify_header", "hxc_get_track_metadata"]
+HXC_GROUP = ["hxc_le_word", "hxc_le_quad", "hxc_read_and_verify_header", "hxc_get_track_metadata", "hxc_check_supported", "hxc_side_loop"]
 
 
 def hxc_jobs(Job, cfg=CFG_NDEBUG, tier="quick"):
@@ -162,7 +162,8 @@ def hxc_jobs(Job, cfg=CFG_NDEBUG, tier="quick"):
     return [J("hxc_le_word", "h_le_word", ["hxc_le_word"]), J("hxc_le_quad", "h_le_quad", ["hxc_le_quad"]),
             J("hxc_header", "h_header", ["hxc_read_and_verify_header"], cover=True,
               cbmc=["--unwindset", "bytes_copy7.0:8,memcmp.0:8", "--unwinding-assertions"]),
-            J("hxc_track_metadata", "h_track_metadata", ["hxc_get_track_metadata"], loops=True, cover=True)]
+            J("hxc_track_metadata", "h_track_metadata", ["hxc_get_track_metadata"], loops=True, cover=True),
+            J("hxc_check_supported", "h_check_supported", ["hxc_check_supported"]), J("hxc_side_loop", "h_side_loop", ["hxc_side_loop"], loops=True)]
 
 
 TRACK_GROUP = ["crc_cycle", "CRC16Base_update", "CRC16Base_update_bit", "reverse_bit_order", "BitStream_raw_pos",
@@ -345,7 +346,7 @@ def listtype_jobs(Job, cfg=CFG_NDEBUG, tier="quick"):
 
 
 def c01_extra(Job, tier):
-    return render_jobs(Job) + listtype_jobs(Job) + [j for j in names_jobs(Job) if "has_name" in j.name] + bodycmd_jobs(Job)
+    return render_jobs(Job) + listtype_jobs(Job) + [j for j in names_jobs(Job) if "has_name" in j.name] + bodycmd_jobs(Job) + fsp_jobs(Job)
 
 
 # ---- C02 extra: the info line ------------------------------------------------------------------------------------
@@ -386,7 +387,7 @@ def c06_extra(Job, tier):
 
 
 def c07_extra(Job, tier):
-    return trackcheck_jobs(Job) + mmb_jobs(Job) + write_span_jobs(Job) + selector_jobs(Job) + [j for j in names_jobs(Job) if "less" in j.name] + [j for j in space_jobs(Job) if "start_sec" in j.name] + hfegeom_jobs(Job) + showtitles_jobs(Job) + [j for j in adapter_jobs(Job) if "read_block" in j.name] + [j for j in fragment_jobs(Job) if "valid_" in j.name] + [j for j in gz_jobs(Job) if "inflate_loop" in j.name] + [j for j in opus_jobs(Job) if "opus_ctor_head" in j.name or "opus_volume_table" in j.name or "location_ctor" in j.name] + [j for j in hfelut_jobs(Job) if "read_track" in j.name or "decode_header" in j.name]
+    return trackcheck_jobs(Job) + mmb_jobs(Job) + write_span_jobs(Job) + selector_jobs(Job) + [j for j in names_jobs(Job) if "less" in j.name] + [j for j in space_jobs(Job) if "start_sec" in j.name] + hfegeom_jobs(Job) + showtitles_jobs(Job) + [j for j in catsort_jobs(Job) if "compare" in j.name] + [j for j in adapter_jobs(Job) if "read_block" in j.name] + [j for j in fragment_jobs(Job) if "valid_" in j.name] + [j for j in gz_jobs(Job) if "inflate_loop" in j.name] + [j for j in opus_jobs(Job) if "opus_ctor_head" in j.name or "opus_volume_table" in j.name or "location_ctor" in j.name] + [j for j in hfelut_jobs(Job) if "read_track" in j.name or "decode_header" in j.name]
 
 
 # ---- destination directory / make_name (C12) ---------------------------------------------------------------------------
